@@ -106,6 +106,7 @@ align 16
 mk_global  xor_gen_avx512, function
 func(xor_gen_avx512)
 	FUNC_SAVE
+	movsxd	vec, DWORD(vec)	;vects is a signed int
 	sub	vec, 2			;Keep as offset to last source
 	jng	return_fail		;Must have at least 2 sources
 	cmp	len, 0
